@@ -459,7 +459,7 @@ def node0_shape(case):
     return _NODE0[key]
 
 
-def run_case(case):
+def _run_case(case):
     """Apply the case to the real code and compare.  Returns (mismatches, n_executions)."""
     mism = []
     with warnings.catch_warnings():
@@ -593,3 +593,14 @@ def run_alpha(case):
     if log0 != log1:
         mism.append((k, f"arguments per original parameter differ: {log1} vs {log0}"))
     return mism
+
+
+def run_case(case):
+    """Total wrapper: a library that misbehaves badly enough to break the replay's own bookkeeping is reported as a
+    finding of its own class, never as a crash of the check."""
+    try:
+        return _run_case(case)
+    except Exception as e:  # noqa: BLE001
+        import traceback
+        where = traceback.extract_tb(e.__traceback__)[-1]
+        return [("replay-crashed:" + type(e).__name__, f"{type(e).__name__}: {e} at {where.filename.rsplit('/', 1)[-1]}:{where.lineno}")], 0
